@@ -24,9 +24,9 @@ func (l *verifListener) note(prev, to State) {
 	l.cur = to
 	l.n++
 }
-func (l *verifListener) OnTransformToClosed(prev State, rule Rule)             { l.note(prev, Closed) }
+func (l *verifListener) OnTransformToClosed(prev State, rule Rule)              { l.note(prev, Closed) }
 func (l *verifListener) OnTransformToOpen(prev State, rule Rule, s interface{}) { l.note(prev, Open) }
-func (l *verifListener) OnTransformToHalfOpen(prev State, rule Rule)           { l.note(prev, HalfOpen) }
+func (l *verifListener) OnTransformToHalfOpen(prev State, rule Rule)            { l.note(prev, HalfOpen) }
 
 type verifCompletion struct {
 	t   uint64
